@@ -115,6 +115,7 @@ class TableEvaluator:
         self.memo: dict[Any, EvaluatorResult] = {}
         self.returned: list[EvaluatorResult] = []
         self.snapshots: list[tuple[bytes | None, bytes | None]] = []
+        self.info_snapshots: list[Any] = []
 
     def _to_pool(self, name: str, array: np.ndarray) -> np.ndarray:
         return _pool_store(self._pool, name, array)
@@ -147,6 +148,7 @@ class TableEvaluator:
                 call.constraints = None if result.constraints is None else np.array(result.constraints, copy=True)
                 self.returned.append(result)
                 self.snapshots.append((bytes_of(result.objectives), bytes_of(result.constraints)))
+                self.info_snapshots.append(info_state(result))
                 return result
         n_rows = variables.shape[0]
         objectives = np.zeros((n_rows, self.n_obj), dtype=np.float64)
@@ -200,7 +202,14 @@ class TableEvaluator:
             self.memo[key] = result
         self.returned.append(result)
         self.snapshots.append((bytes_of(objectives), bytes_of(constraints)))
+        self.info_snapshots.append(info_state(result))
         return result
+
+
+def info_state(result: EvaluatorResult) -> Any:
+    """Keys, shapes, dtypes and bytes of the evaluation_info of a returned result (the evaluator's own object)."""
+    info = getattr(result, "evaluation_info", None) or {}
+    return tuple((key, np.asarray(value).shape, str(np.asarray(value).dtype), np.asarray(value).tobytes()) for key, value in sorted(info.items()))
 
 
 def _pool_store(pool: dict[str, np.ndarray], name: str, array: np.ndarray) -> np.ndarray:
